@@ -486,11 +486,22 @@ class C12(Property):
                 parts.insert(0, [x - 8, x - 3, strand])
             if rng.random() < 0.3:
                 parts.append([y + 3, y + 7, strand])
-            if rng.random() < 0.08:      # three abutting exons (KF-C12-abutting-exons)
-                parts = [[x, length, strand], [0, 4, strand], [4, 9, strand], [9, 13, strand]]
+            if rng.random() < 0.3:       # runs of abutting exons, before and after the origin (D58)
+                parts = [[x, length, strand]]
+                if x - 9 > end + 5 and rng.random() < 0.5:
+                    parts = [[x - 9, x - 4, strand], [x - 4, x, strand]] + parts
+                lo = 0
+                for _ in range(rng.choice([1, 2, 3, 4])):
+                    hi = lo + rng.randint(3, 5)
+                    parts.append([lo, hi, strand])
+                    lo = hi
             if strand == -1:
                 parts.reverse()
-            case["cds"].append({"loc": {"c": True, "parts": parts}, "name": f"over{i}"})
+            loc = {"c": True, "parts": parts}
+            # two genes naming the same bases (differently cut into exons) become one location once abutting exons
+            # are merged, and the loader refuses two CDS at one location: not generated
+            if all(canon(loc) != canon(other["loc"]) for other in case["cds"]):
+                case["cds"].append({"loc": loc, "name": f"over{i}"})
         if rng.random() < 0.5:
             size = 3 * rng.randint(2, 4)
             lo = rng.randint(0, max(0, end - size))
@@ -636,14 +647,11 @@ class C12(Property):
                     if (rl["n_protos"], rl["n_cands"], rl["n_subs"]) != (
                             r["content"]["n_protos"], len(r["content"]["cands"]), len(r["content"]["subs"])):
                         problems.append("loaded record has other areas than the region's")
-            if problems and d.get("kf_abutting_exons") and any(p.startswith("features not covering") for p in problems):
-                class_here = "KF-C12-abutting-exons"
             if problems:
                 spec = False
                 details.append(f"{where}: " + "; ".join(problems))
                 allowed = ("file does not load", "loaded region differs") + (
-                    ("motif_locs fails",) if class_here == "KF-C12-prepeptide-cut" else ()) + (
-                    ("features not covering", "features extracting different") if class_here == "KF-C12-abutting-exons" else ())
+                    ("motif_locs fails",) if class_here == "KF-C12-prepeptide-cut" else ())
                 only_reload = all(p.startswith(allowed) for p in problems)
                 if class_here and only_reload and known != "none":
                     known = known or class_here      # several regions may fail, each inside some class
